@@ -743,6 +743,67 @@ fn quota_scenarios() -> Vec<Scenario> {
     v
 }
 
+/// A module whose debug file carries one of the extensions the lookups rewrite (`foo.sym`, `foo.pdb`, `foo.dll`): first
+/// the debug file itself is fetched (an opaque download into the cache), then the symbols are looked up. The opaque
+/// download is no symbol file: the symbol lookup must download and parse the real one (which the server has), and a
+/// cache-only reload must give the same table.
+fn check_name_collision(which: u64, l: &mut Local) {
+    let dir = tempfile::tempdir().expect("tempdir");
+    let (cache, tmp) = (dir.path().join("cache"), dir.path().join("tmp"));
+    std::fs::create_dir_all(&cache).unwrap();
+    std::fs::create_dir_all(&tmp).unwrap();
+    let name = ["foo.sym", "foo.pdb", "foo.dll", "foo"][which as usize];
+    let id = debugid::DebugId::from_str(DEBUG_ID).expect("id");
+    let m = SimpleModule::from_basic_info(Some(name.into()), Some(id), Some(name.into()), Some(debugid::CodeId::new("5a9832e5287241c1".into())));
+    let server = start_server();
+    for sc in [script_full("content-length", BLOB), script_full("content-length", BODY)] {
+        for e in &sc.events {
+            let _ = server.tx.send(e.clone());
+        }
+    }
+    let supplier = HttpSymbolSupplier::new(vec![server.url()], cache.clone(), tmp.clone(), vec![], Duration::from_millis(60_000));
+    let res = guard(|| {
+        RT.with(|rt| {
+            rt.block_on(async {
+                let f = supplier.locate_file(&m, FileKind::ExtraDebugInfo).await;
+                let s = supplier.locate_symbols(&m).await;
+                (f, s)
+            })
+        })
+    });
+    l.eval();
+    let log = server.log.lock().unwrap().clone();
+    server.stop();
+    let detail = json!({"debug_file": name, "requests": log});
+    match res {
+        Ok((f, s)) => {
+            l.outcome(&format!("name collision: file {} symbols {}", if f.is_ok() { "Ok" } else { "Err" }, if s.is_ok() { "Ok" } else { "Err" }));
+            l.distinct(&("collision", which, f.is_ok(), s.is_ok()));
+            if f.is_err() {
+                l.violation("c16:name-collision:file-download-fails", format!("the opaque download of the debug file {name} fails: {:?}", f.err()), detail.clone());
+            }
+            match s {
+                Ok(r) => {
+                    let mut direct = SymbolFile::from_bytes(BODY).expect("body parses");
+                    direct.url = r.symbols.url.clone();
+                    if direct != r.symbols {
+                        l.violation("c16:name-collision:symbols-differ", format!("symbols of a module whose debug file is {name}: the table differs from the served symbol file"), detail.clone());
+                    }
+                    // cache-only reload
+                    let s2 = HttpSymbolSupplier::new(vec!["http://127.0.0.1:1/".into()], cache.clone(), tmp.clone(), vec![], Duration::from_millis(500));
+                    match guard(|| RT.with(|rt| rt.block_on(s2.locate_symbols(&m)))) {
+                        Ok(Ok(r2)) if r2.symbols == r.symbols => {}
+                        Ok(other) => l.violation("c16:cached-reload-differs", format!("debug file {name}: the offline reload gives {} where the download gave the served table", if other.is_ok() { "another table" } else { "an error" }), detail),
+                        Err(p) => l.panic_violation(&p, detail),
+                    }
+                }
+                Err(e) => l.violation("c16:name-collision:symbols-fail", format!("the server has the symbol file, but after the debug file {name} was fetched the symbol lookup fails: {e}"), detail),
+            }
+        }
+        Err(p) => l.panic_violation(&p, detail),
+    }
+}
+
 /// one supplier, the same file asked for twice: the second answer is the first (memoised), whether the first
 /// was a download or a failure after which the file appeared in the cache directory
 fn check_file_memo(which: u64, l: &mut Local) {
@@ -813,6 +874,7 @@ fn main() {
         let qs = Arc::new(quota_scenarios());
         let (q1, q2) = (qs.clone(), qs.clone());
         def.spaces.push(Space::new("disk-quota", qs.len() as u64, move |i, l| check_scenario(&q1[i as usize], l), move |i| q2[i as usize].json()).sandboxed(Sandbox { wall_ms: 60_000, hard_cap: 1 << 30, chunk: 32 }));
+        def.spaces.push(Space::new("debug-file-name-collisions", 4, check_name_collision, |i| json!({"debug_file": (["foo.sym", "foo.pdb", "foo.dll", "foo"][i as usize])})).chunked(1).wall(120_000));
         def.spaces.push(Space::new("file-memo", 4, check_file_memo, |i| json!({"file_kind": (if i % 2 == 0 { "Binary" } else { "ExtraDebugInfo" }), "first_request_fails": i / 2 == 1})).chunked(1).wall(120_000));
         def
     })
